@@ -65,6 +65,11 @@ extern "C" {
  */
 typedef union
 {
+#if defined(ASCON_SUITE_VERIF)
+    /* Verification hook: a byte view declared first so that bounded
+     * model checkers encode the union byte-wise.  No effect on layout. */
+    uint8_t verif_bytes_first[ASCON_MASKED_MAX_SHARES * 8];
+#endif
     /** 64-bit version of the masked shares */
     uint64_t S[ASCON_MASKED_MAX_SHARES];
 
